@@ -200,6 +200,14 @@ func c03RunSched(c c03Case, st *fw.Stats) []fw.Viol {
 		return nil
 	}
 	if w.Err != "" {
+		if strings.Contains(w.Err, "replay divergence") || strings.Contains(w.Err, "did not replay identically") {
+			// the same schedule did not reproduce: something outside the scheduler's control ran (on the unchanged tree
+			// nothing does - rux starts no goroutines of its own). The scenario counts as not explored, never as an
+			// alarm by itself; the free-running pass judges such code.
+			st.Cap("a scenario did not replay deterministically (code outside the scheduler's control, e.g. a goroutine started by the library): not explored: " + oneLineTail(w.Err, 160))
+			st.Inc("scenarios_not_deterministic", 1)
+			return nil
+		}
 		panic("C03 worker: " + w.Err)
 	}
 	st.States += w.Execs
